@@ -18,14 +18,14 @@ func init() { register("C16", checkC16) }
 func checkC16(p *Prog, r *Result, tier string) {
 	r.Technique = "format/constant agreement between the key writer and reader (type-checked AST), value-origin rule for event ids, abstract interpretation of the go/ssa form of Hydro.recover over all handler outcome vectors (decode, check, handle, delete), go/cfg + AST shape rules for the replay loop and the store scan"
 	r.Explanation = "K1 an event key is the shared prefix constant joined with the id printed as zero-padded fixed-width hexadecimal of width 16 (64 bits / 4): byte order of keys equals numeric order of ids, so a prefix scan yields logging order; K2 the reader strips the same prefix constant and parses base 16 into 64 bits; " +
-		"K3 the id of a logged event comes only from the store's NextSequence, which takes it from the bucket's persistent sequence inside an update transaction (never reused, also across restarts), and the entry is written under that event's key before the commit function is returned; K4 the commit function deletes exactly that event's key; " +
+		"K3 the id of a logged event comes only from the store's NextSequence, which takes it from the bucket's persistent sequence inside an update transaction (never reused, also across restarts: the store never deletes that bucket nor sets its sequence), and the entry is written under that event's key before the commit function is returned; K4 the commit function deletes exactly that event's key; " +
 		"R1 (abstract interpretation, 18 outcome vectors) replaying one event deletes it exactly when decoding succeeded and either Check said not-needed without error or Handle succeeded; Handle runs iff Check asked for it; each step runs at most once; a failure is returned; " +
 		"R2 Recover collects the decodable events in scan order into one slice and replays them in one sequential range over that slice (no goroutine, no reordering), one recover call per element, skipping (not deleting) events without a registered handler; S1 the store scan walks the bucket cursor forwards from the prefix (Seek/Next)."
 	r.NotCovered = "bbolt's own guarantees (atomic update, persistent sequence, cursor order); concurrent loggers interleaving with a running recovery; what the handlers do"
 	r.Assumptions = []string{"A4 bbolt behaves as documented"}
 	r.min("K1", 1)
 	r.min("K2", 1)
-	r.min("K3", 3)
+	r.min("K3", 4)
 	r.min("K4", 1)
 	r.min("R1", 18)
 	r.min("R2", 4)
@@ -174,6 +174,43 @@ func checkC16(p *Prog, r *Result, tier string) {
 			}
 		}
 		r.check2(why, "K3", "wal/kv.(*Lithium).NextSequence / persistent bucket sequence inside an update transaction", p.pos(NS.Decl), "bkt.NextSequence() inside l.update")
+
+		// the sequence lives in the bucket: the store never deletes the bucket and never sets the sequence — either would
+		// restart the ids (a later event then sorts BEFORE, or collides with, one that was logged earlier)
+		{
+			bad := ""
+			nfn := 0
+			for _, fn := range p.sortedFuncs("wal/kv") {
+				if fn.Body == nil {
+					continue
+				}
+				nfn++
+				ast.Inspect(fn.Body, func(n ast.Node) bool {
+					c, ok := n.(*ast.CallExpr)
+					if !ok || fn.Callee(c) == nil {
+						return true
+					}
+					f := fn.Callee(c)
+					if f.Pkg() != nil && strings.Contains(f.Pkg().Path(), "bbolt") {
+						switch f.Name() {
+						case "DeleteBucket", "SetSequence":
+							bad = f.Name() + " at " + p.pos(c)
+						}
+					}
+					return true
+				})
+			}
+			if nfn == 0 {
+				r.undecided("K3", "wal/kv / the bucket that holds the sequence is never deleted and its sequence never set", "", "no function of wal/kv found")
+			} else {
+				r.check2(func() string {
+					if bad == "" {
+						return ""
+					}
+					return bad + ": the persistent sequence behind NextSequence restarts, so event ids are used again after a restart and replay order no longer is logging order"
+				}(), "K3", "wal/kv / the bucket that holds the sequence is never deleted and its sequence never set", p.pos(NS.Decl), fmt.Sprintf("no bbolt DeleteBucket/SetSequence in the %d functions of wal/kv", nfn))
+			}
+		}
 
 		// Put(event.Key(), …) dominates the return of the commit closure
 		why = "no store.Put of the event's key before the commit function is returned"
